@@ -61,6 +61,16 @@ CHECKS = {
             "Generated-input search: short random histories over every mutating call kind with initial status byte 0..3 on FAT12/16 (0x25) and FAT32 (0x41).",
             "trusted: refdec-based structural diff (timestamps, status byte, FS-info excluded), proptest",
             "DESIGN.md 5 C12"),
+    "C13": ("exploration",
+            "invariant checking over generated sessions: the instrumented device's write log over a proptest-generated read-only session (after a generated populating history) must be empty, with the single FS-info exception checked for location and content",
+            "Generated-input search: populated volumes of every width (clean/dirty, FS-info count present/unknown) x random sequences of non-mutating calls incl. repeated unmount/drop + remount.",
+            "trusted: the device write log, refdec geometry for the FS-info location, proptest; access-date updating disabled as the property states",
+            "DESIGN.md 5 C13"),
+    "C14": ("fault_enumeration",
+            "crash-point enumeration over generated histories: the device records every write and flush; for every flush point every later prefix of the device-write sequence is materialised as a crash image, decoded independently (refdec) and remounted through the library",
+            "Crash-point enumeration: all write-level prefixes after each flush point of each generated history (spans > 120 writes sampled), plus the flush-barrier condition (a device flush follows the last write of the flush call).",
+            "crash model: prefix loss of device writes with flush barriers; no torn/reordered sectors; trusted: refdec, the device log, proptest",
+            "DESIGN.md 5 C14"),
 }
 
 PENDING_REASON = "check under construction in this session; not claimed yet (technique applies, see DESIGN.md)"
